@@ -82,8 +82,732 @@ theorem frame_ioFail (s : St α) : Frame s (ioFail c s) ∧ (ioFail c s).pc.clos
   exact ⟨⟨this.1.trace, this.1.fs, this.1.k, this.1.destStIno, this.1.srcStIno, this.1.userAbort, this.1.destOpen,
     this.1.srcOpen, this.1.dirOpen, this.1.exitMono⟩, this.2.1, this.2.2⟩
 
-theorem frame_openDestErr (s : St α) : Frame s (openDestErr c s) ∧ (openDestErr c s).pc.landing = true ∧
-    (openDestErr c s).success = false ∨ (openDestErr c s).success = s.success := by
-  sorry
+theorem frame_openDestErr (s : St α) : Frame s (openDestErr c s) ∧ (openDestErr c s).pc.landing = true := by
+  unfold openDestErr
+  split
+  · exact ⟨⟨rfl, rfl, rfl, rfl, rfl, rfl, rfl, rfl, rfl, id⟩, rfl⟩
+  · have := frame_ioFail c s; exact ⟨this.1, closing_landing this.2.1⟩
+
+theorem frame_finish (s : St α) : Frame s (finish c s) ∧ (finish c s).pc.landing = true := by
+  unfold finish
+  split
+  · have := frame_ioClose c { s with success := true }
+    exact ⟨⟨this.1.trace, this.1.fs, this.1.k, this.1.destStIno, this.1.srcStIno, this.1.userAbort, this.1.destOpen,
+      this.1.srcOpen, this.1.dirOpen, this.1.exitMono⟩, closing_landing this.2.1⟩
+  · have := frame_ioFail c (msgError s)
+    exact ⟨⟨this.1.trace, this.1.fs, this.1.k, this.1.destStIno, this.1.srcStIno, this.1.userAbort, this.1.destOpen,
+      this.1.srcOpen, this.1.dirOpen, fun _ => this.1.exitMono (by simp [msgError])⟩, closing_landing this.2.1⟩
+
+theorem frame_nextMain (ops : List (Op α)) (s : St α) : Frame s (nextMain c ops s) ∧ (nextMain c ops s).pc.landing = true := by
+  induction ops generalizing s with
+  | nil =>
+    unfold nextMain
+    have := frame_finish c { s with ops := [] }
+    exact ⟨⟨this.1.trace, this.1.fs, this.1.k, this.1.destStIno, this.1.srcStIno, this.1.userAbort, this.1.destOpen,
+      this.1.srcOpen, this.1.dirOpen, this.1.exitMono⟩, this.2⟩
+  | cons op r ih =>
+    cases op with
+    | tick =>
+      unfold nextMain
+      split
+      · have := frame_ioFail c s; exact ⟨this.1, closing_landing this.2.1⟩
+      · exact ih s
+    | read n =>
+      unfold nextMain
+      split
+      · exact ih s
+      · exact ⟨⟨rfl, rfl, rfl, rfl, rfl, rfl, rfl, rfl, rfl, id⟩, rfl⟩
+    | fixPos n =>
+      unfold nextMain
+      split
+      · exact ih s
+      · exact ⟨⟨rfl, rfl, rfl, rfl, rfl, rfl, rfl, rfl, rfl, id⟩, rfl⟩
+    | write d sp =>
+      unfold nextMain
+      split
+      · exact ih s
+      · split
+        · have := ih { s with pending := s.pending + d.length }
+          exact ⟨⟨this.1.trace, this.1.fs, this.1.k, this.1.destStIno, this.1.srcStIno, this.1.userAbort,
+            this.1.destOpen, this.1.srcOpen, this.1.dirOpen, this.1.exitMono⟩, this.2⟩
+        · split
+          · exact ih s
+          · split <;> exact ⟨⟨rfl, rfl, rfl, rfl, rfl, rfl, rfl, rfl, rfl, id⟩, rfl⟩
+
+theorem frame_doInit (s : St α) : Frame s (doInit c s) ∧ (doInit c s).pc.landing = true := by
+  have lift : ∀ s' : St α, Frame { s with main := true, ops := c.ops } s' → Frame s s' := fun s' f =>
+    ⟨f.trace, f.fs, f.k, f.destStIno, f.srcStIno, f.userAbort, f.destOpen, f.srcOpen, f.dirOpen, f.exitMono⟩
+  unfold doInit
+  simp only
+  split
+  · have := frame_ioFail c (msgError { s with main := true, ops := c.ops })
+    exact ⟨⟨this.1.trace, this.1.fs, this.1.k, this.1.destStIno, this.1.srcStIno, this.1.userAbort, this.1.destOpen,
+      this.1.srcOpen, this.1.dirOpen, fun _ => this.1.exitMono (by simp [msgError])⟩, closing_landing this.2.1⟩
+  · split
+    · have := frame_ioFail c { s with main := true, ops := c.ops }
+      exact ⟨lift _ this.1, closing_landing this.2.1⟩
+    · split
+      · have := frame_nextMain c c.ops { s with main := true, ops := c.ops }
+        exact ⟨lift _ this.1, this.2⟩
+      · split
+        · exact ⟨⟨rfl, rfl, rfl, rfl, rfl, rfl, rfl, rfl, rfl, id⟩, rfl⟩
+        · split
+          · exact ⟨⟨rfl, rfl, rfl, rfl, rfl, rfl, rfl, rfl, rfl, id⟩, rfl⟩
+          · split <;> exact ⟨⟨rfl, rfl, rfl, rfl, rfl, rfl, rfl, rfl, rfl, id⟩, rfl⟩
+
+theorem frame_nextPre (ops : List (Op α)) (s : St α) : Frame s (nextPre c ops s) ∧ (nextPre c ops s).pc.landing = true := by
+  induction ops generalizing s with
+  | nil => unfold nextPre; exact frame_doInit c s
+  | cons op r ih =>
+    cases op with
+    | read n =>
+      unfold nextPre
+      split
+      · exact ih s
+      · exact ⟨⟨rfl, rfl, rfl, rfl, rfl, rfl, rfl, rfl, rfl, id⟩, rfl⟩
+    | tick => unfold nextPre; exact ih s
+    | write d sp => unfold nextPre; exact ih s
+    | fixPos n => unfold nextPre; exact ih s
+
+theorem frame_continueLoop (s : St α) : Frame s (continueLoop c s) ∧ (continueLoop c s).pc.landing = true := by
+  unfold continueLoop
+  split
+  · exact frame_nextMain c s.ops s
+  · exact frame_nextPre c s.ops s
+
+theorem frame_afterWrite (s : St α) : Frame s (afterWrite c s) ∧ (afterWrite c s).pc.landing = true := by
+  unfold afterWrite
+  split
+  · have := frame_closeBlock c s; exact ⟨this.1, closing_landing this.2.1⟩
+  · exact frame_continueLoop c s
+
+/-! ### simp forms -/
+
+@[simp] theorem closeSrcPhase_trace (s : St α) : (closeSrcPhase c s).trace = s.trace := (frame_closeSrcPhase c s).1.trace
+@[simp] theorem closeSrcPhase_fs (s : St α) : (closeSrcPhase c s).fs = s.fs := (frame_closeSrcPhase c s).1.fs
+@[simp] theorem closeSrcPhase_k (s : St α) : (closeSrcPhase c s).k = s.k := (frame_closeSrcPhase c s).1.k
+@[simp] theorem closeSrcPhase_destStIno (s : St α) : (closeSrcPhase c s).destStIno = s.destStIno := (frame_closeSrcPhase c s).1.destStIno
+@[simp] theorem closeSrcPhase_srcStIno (s : St α) : (closeSrcPhase c s).srcStIno = s.srcStIno := (frame_closeSrcPhase c s).1.srcStIno
+@[simp] theorem closeSrcPhase_userAbort (s : St α) : (closeSrcPhase c s).userAbort = s.userAbort := (frame_closeSrcPhase c s).1.userAbort
+@[simp] theorem closeSrcPhase_destOpen (s : St α) : (closeSrcPhase c s).destOpen = s.destOpen := (frame_closeSrcPhase c s).1.destOpen
+@[simp] theorem closeSrcPhase_srcOpen (s : St α) : (closeSrcPhase c s).srcOpen = s.srcOpen := (frame_closeSrcPhase c s).1.srcOpen
+@[simp] theorem closeSrcPhase_dirOpen (s : St α) : (closeSrcPhase c s).dirOpen = s.dirOpen := (frame_closeSrcPhase c s).1.dirOpen
+theorem closeSrcPhase_landing (s : St α) : (closeSrcPhase c s).pc.landing = true := closing_landing (frame_closeSrcPhase c s).2.1
+@[simp] theorem closeSrcPhase_ne_unlinkDest (s : St α) : ((closeSrcPhase c s).pc = .unlinkDest) = False := by
+  have h := closeSrcPhase_landing c s; simp only [eq_iff_iff, iff_false]; intro e; rw [e] at h; simp [Pc.landing] at h
+@[simp] theorem closeSrcPhase_ne_statDest (s : St α) : ((closeSrcPhase c s).pc = .statDest) = False := by
+  have h := closeSrcPhase_landing c s; simp only [eq_iff_iff, iff_false]; intro e; rw [e] at h; simp [Pc.landing] at h
+@[simp] theorem closeSrcPhase_ne_statSrc (s : St α) : ((closeSrcPhase c s).pc = .statSrc) = False := by
+  have h := closeSrcPhase_landing c s; simp only [eq_iff_iff, iff_false]; intro e; rw [e] at h; simp [Pc.landing] at h
+@[simp] theorem closeSrcPhase_ne_unlinkSrc (s : St α) : ((closeSrcPhase c s).pc = .unlinkSrc) = False := by
+  have h := closeSrcPhase_landing c s; simp only [eq_iff_iff, iff_false]; intro e; rw [e] at h; simp [Pc.landing] at h
+@[simp] theorem closeSrcPhase_ne_fsyncDir (s : St α) : ((closeSrcPhase c s).pc = .fsyncDir) = False := by
+  have h := closeSrcPhase_landing c s; simp only [eq_iff_iff, iff_false]; intro e; rw [e] at h; simp [Pc.landing] at h
+@[simp] theorem closeSrcPhase_ne_closeSrcErr (s : St α) : ((closeSrcPhase c s).pc = .closeSrcErr) = False := by
+  have h := closeSrcPhase_landing c s; simp only [eq_iff_iff, iff_false]; intro e; rw [e] at h; simp [Pc.landing] at h
+@[simp] theorem closeDestPhase_trace (s : St α) : (closeDestPhase c s).trace = s.trace := (frame_closeDestPhase c s).1.trace
+@[simp] theorem closeDestPhase_fs (s : St α) : (closeDestPhase c s).fs = s.fs := (frame_closeDestPhase c s).1.fs
+@[simp] theorem closeDestPhase_k (s : St α) : (closeDestPhase c s).k = s.k := (frame_closeDestPhase c s).1.k
+@[simp] theorem closeDestPhase_destStIno (s : St α) : (closeDestPhase c s).destStIno = s.destStIno := (frame_closeDestPhase c s).1.destStIno
+@[simp] theorem closeDestPhase_srcStIno (s : St α) : (closeDestPhase c s).srcStIno = s.srcStIno := (frame_closeDestPhase c s).1.srcStIno
+@[simp] theorem closeDestPhase_userAbort (s : St α) : (closeDestPhase c s).userAbort = s.userAbort := (frame_closeDestPhase c s).1.userAbort
+@[simp] theorem closeDestPhase_destOpen (s : St α) : (closeDestPhase c s).destOpen = s.destOpen := (frame_closeDestPhase c s).1.destOpen
+@[simp] theorem closeDestPhase_srcOpen (s : St α) : (closeDestPhase c s).srcOpen = s.srcOpen := (frame_closeDestPhase c s).1.srcOpen
+@[simp] theorem closeDestPhase_dirOpen (s : St α) : (closeDestPhase c s).dirOpen = s.dirOpen := (frame_closeDestPhase c s).1.dirOpen
+theorem closeDestPhase_landing (s : St α) : (closeDestPhase c s).pc.landing = true := closing_landing (frame_closeDestPhase c s).2.1
+@[simp] theorem closeDestPhase_ne_unlinkDest (s : St α) : ((closeDestPhase c s).pc = .unlinkDest) = False := by
+  have h := closeDestPhase_landing c s; simp only [eq_iff_iff, iff_false]; intro e; rw [e] at h; simp [Pc.landing] at h
+@[simp] theorem closeDestPhase_ne_statDest (s : St α) : ((closeDestPhase c s).pc = .statDest) = False := by
+  have h := closeDestPhase_landing c s; simp only [eq_iff_iff, iff_false]; intro e; rw [e] at h; simp [Pc.landing] at h
+@[simp] theorem closeDestPhase_ne_statSrc (s : St α) : ((closeDestPhase c s).pc = .statSrc) = False := by
+  have h := closeDestPhase_landing c s; simp only [eq_iff_iff, iff_false]; intro e; rw [e] at h; simp [Pc.landing] at h
+@[simp] theorem closeDestPhase_ne_unlinkSrc (s : St α) : ((closeDestPhase c s).pc = .unlinkSrc) = False := by
+  have h := closeDestPhase_landing c s; simp only [eq_iff_iff, iff_false]; intro e; rw [e] at h; simp [Pc.landing] at h
+@[simp] theorem closeDestPhase_ne_fsyncDir (s : St α) : ((closeDestPhase c s).pc = .fsyncDir) = False := by
+  have h := closeDestPhase_landing c s; simp only [eq_iff_iff, iff_false]; intro e; rw [e] at h; simp [Pc.landing] at h
+@[simp] theorem closeDestPhase_ne_closeSrcErr (s : St α) : ((closeDestPhase c s).pc = .closeSrcErr) = False := by
+  have h := closeDestPhase_landing c s; simp only [eq_iff_iff, iff_false]; intro e; rw [e] at h; simp [Pc.landing] at h
+@[simp] theorem afterAttrs_trace (s : St α) : (afterAttrs c s).trace = s.trace := (frame_afterAttrs c s).1.trace
+@[simp] theorem afterAttrs_fs (s : St α) : (afterAttrs c s).fs = s.fs := (frame_afterAttrs c s).1.fs
+@[simp] theorem afterAttrs_k (s : St α) : (afterAttrs c s).k = s.k := (frame_afterAttrs c s).1.k
+@[simp] theorem afterAttrs_destStIno (s : St α) : (afterAttrs c s).destStIno = s.destStIno := (frame_afterAttrs c s).1.destStIno
+@[simp] theorem afterAttrs_srcStIno (s : St α) : (afterAttrs c s).srcStIno = s.srcStIno := (frame_afterAttrs c s).1.srcStIno
+@[simp] theorem afterAttrs_userAbort (s : St α) : (afterAttrs c s).userAbort = s.userAbort := (frame_afterAttrs c s).1.userAbort
+@[simp] theorem afterAttrs_destOpen (s : St α) : (afterAttrs c s).destOpen = s.destOpen := (frame_afterAttrs c s).1.destOpen
+@[simp] theorem afterAttrs_srcOpen (s : St α) : (afterAttrs c s).srcOpen = s.srcOpen := (frame_afterAttrs c s).1.srcOpen
+@[simp] theorem afterAttrs_dirOpen (s : St α) : (afterAttrs c s).dirOpen = s.dirOpen := (frame_afterAttrs c s).1.dirOpen
+theorem afterAttrs_landing (s : St α) : (afterAttrs c s).pc.landing = true := closing_landing (frame_afterAttrs c s).2.1
+@[simp] theorem afterAttrs_ne_unlinkDest (s : St α) : ((afterAttrs c s).pc = .unlinkDest) = False := by
+  have h := afterAttrs_landing c s; simp only [eq_iff_iff, iff_false]; intro e; rw [e] at h; simp [Pc.landing] at h
+@[simp] theorem afterAttrs_ne_statDest (s : St α) : ((afterAttrs c s).pc = .statDest) = False := by
+  have h := afterAttrs_landing c s; simp only [eq_iff_iff, iff_false]; intro e; rw [e] at h; simp [Pc.landing] at h
+@[simp] theorem afterAttrs_ne_statSrc (s : St α) : ((afterAttrs c s).pc = .statSrc) = False := by
+  have h := afterAttrs_landing c s; simp only [eq_iff_iff, iff_false]; intro e; rw [e] at h; simp [Pc.landing] at h
+@[simp] theorem afterAttrs_ne_unlinkSrc (s : St α) : ((afterAttrs c s).pc = .unlinkSrc) = False := by
+  have h := afterAttrs_landing c s; simp only [eq_iff_iff, iff_false]; intro e; rw [e] at h; simp [Pc.landing] at h
+@[simp] theorem afterAttrs_ne_fsyncDir (s : St α) : ((afterAttrs c s).pc = .fsyncDir) = False := by
+  have h := afterAttrs_landing c s; simp only [eq_iff_iff, iff_false]; intro e; rw [e] at h; simp [Pc.landing] at h
+@[simp] theorem afterAttrs_ne_closeSrcErr (s : St α) : ((afterAttrs c s).pc = .closeSrcErr) = False := by
+  have h := afterAttrs_landing c s; simp only [eq_iff_iff, iff_false]; intro e; rw [e] at h; simp [Pc.landing] at h
+@[simp] theorem closeBlock_trace (s : St α) : (closeBlock c s).trace = s.trace := (frame_closeBlock c s).1.trace
+@[simp] theorem closeBlock_fs (s : St α) : (closeBlock c s).fs = s.fs := (frame_closeBlock c s).1.fs
+@[simp] theorem closeBlock_k (s : St α) : (closeBlock c s).k = s.k := (frame_closeBlock c s).1.k
+@[simp] theorem closeBlock_destStIno (s : St α) : (closeBlock c s).destStIno = s.destStIno := (frame_closeBlock c s).1.destStIno
+@[simp] theorem closeBlock_srcStIno (s : St α) : (closeBlock c s).srcStIno = s.srcStIno := (frame_closeBlock c s).1.srcStIno
+@[simp] theorem closeBlock_userAbort (s : St α) : (closeBlock c s).userAbort = s.userAbort := (frame_closeBlock c s).1.userAbort
+@[simp] theorem closeBlock_destOpen (s : St α) : (closeBlock c s).destOpen = s.destOpen := (frame_closeBlock c s).1.destOpen
+@[simp] theorem closeBlock_srcOpen (s : St α) : (closeBlock c s).srcOpen = s.srcOpen := (frame_closeBlock c s).1.srcOpen
+@[simp] theorem closeBlock_dirOpen (s : St α) : (closeBlock c s).dirOpen = s.dirOpen := (frame_closeBlock c s).1.dirOpen
+theorem closeBlock_landing (s : St α) : (closeBlock c s).pc.landing = true := closing_landing (frame_closeBlock c s).2.1
+@[simp] theorem closeBlock_ne_unlinkDest (s : St α) : ((closeBlock c s).pc = .unlinkDest) = False := by
+  have h := closeBlock_landing c s; simp only [eq_iff_iff, iff_false]; intro e; rw [e] at h; simp [Pc.landing] at h
+@[simp] theorem closeBlock_ne_statDest (s : St α) : ((closeBlock c s).pc = .statDest) = False := by
+  have h := closeBlock_landing c s; simp only [eq_iff_iff, iff_false]; intro e; rw [e] at h; simp [Pc.landing] at h
+@[simp] theorem closeBlock_ne_statSrc (s : St α) : ((closeBlock c s).pc = .statSrc) = False := by
+  have h := closeBlock_landing c s; simp only [eq_iff_iff, iff_false]; intro e; rw [e] at h; simp [Pc.landing] at h
+@[simp] theorem closeBlock_ne_unlinkSrc (s : St α) : ((closeBlock c s).pc = .unlinkSrc) = False := by
+  have h := closeBlock_landing c s; simp only [eq_iff_iff, iff_false]; intro e; rw [e] at h; simp [Pc.landing] at h
+@[simp] theorem closeBlock_ne_fsyncDir (s : St α) : ((closeBlock c s).pc = .fsyncDir) = False := by
+  have h := closeBlock_landing c s; simp only [eq_iff_iff, iff_false]; intro e; rw [e] at h; simp [Pc.landing] at h
+@[simp] theorem closeBlock_ne_closeSrcErr (s : St α) : ((closeBlock c s).pc = .closeSrcErr) = False := by
+  have h := closeBlock_landing c s; simp only [eq_iff_iff, iff_false]; intro e; rw [e] at h; simp [Pc.landing] at h
+@[simp] theorem ioClose_trace (s : St α) : (ioClose c s).trace = s.trace := (frame_ioClose c s).1.trace
+@[simp] theorem ioClose_fs (s : St α) : (ioClose c s).fs = s.fs := (frame_ioClose c s).1.fs
+@[simp] theorem ioClose_k (s : St α) : (ioClose c s).k = s.k := (frame_ioClose c s).1.k
+@[simp] theorem ioClose_destStIno (s : St α) : (ioClose c s).destStIno = s.destStIno := (frame_ioClose c s).1.destStIno
+@[simp] theorem ioClose_srcStIno (s : St α) : (ioClose c s).srcStIno = s.srcStIno := (frame_ioClose c s).1.srcStIno
+@[simp] theorem ioClose_userAbort (s : St α) : (ioClose c s).userAbort = s.userAbort := (frame_ioClose c s).1.userAbort
+@[simp] theorem ioClose_destOpen (s : St α) : (ioClose c s).destOpen = s.destOpen := (frame_ioClose c s).1.destOpen
+@[simp] theorem ioClose_srcOpen (s : St α) : (ioClose c s).srcOpen = s.srcOpen := (frame_ioClose c s).1.srcOpen
+@[simp] theorem ioClose_dirOpen (s : St α) : (ioClose c s).dirOpen = s.dirOpen := (frame_ioClose c s).1.dirOpen
+theorem ioClose_landing (s : St α) : (ioClose c s).pc.landing = true := closing_landing (frame_ioClose c s).2.1
+@[simp] theorem ioClose_ne_unlinkDest (s : St α) : ((ioClose c s).pc = .unlinkDest) = False := by
+  have h := ioClose_landing c s; simp only [eq_iff_iff, iff_false]; intro e; rw [e] at h; simp [Pc.landing] at h
+@[simp] theorem ioClose_ne_statDest (s : St α) : ((ioClose c s).pc = .statDest) = False := by
+  have h := ioClose_landing c s; simp only [eq_iff_iff, iff_false]; intro e; rw [e] at h; simp [Pc.landing] at h
+@[simp] theorem ioClose_ne_statSrc (s : St α) : ((ioClose c s).pc = .statSrc) = False := by
+  have h := ioClose_landing c s; simp only [eq_iff_iff, iff_false]; intro e; rw [e] at h; simp [Pc.landing] at h
+@[simp] theorem ioClose_ne_unlinkSrc (s : St α) : ((ioClose c s).pc = .unlinkSrc) = False := by
+  have h := ioClose_landing c s; simp only [eq_iff_iff, iff_false]; intro e; rw [e] at h; simp [Pc.landing] at h
+@[simp] theorem ioClose_ne_fsyncDir (s : St α) : ((ioClose c s).pc = .fsyncDir) = False := by
+  have h := ioClose_landing c s; simp only [eq_iff_iff, iff_false]; intro e; rw [e] at h; simp [Pc.landing] at h
+@[simp] theorem ioClose_ne_closeSrcErr (s : St α) : ((ioClose c s).pc = .closeSrcErr) = False := by
+  have h := ioClose_landing c s; simp only [eq_iff_iff, iff_false]; intro e; rw [e] at h; simp [Pc.landing] at h
+@[simp] theorem ioFail_trace (s : St α) : (ioFail c s).trace = s.trace := (frame_ioFail c s).1.trace
+@[simp] theorem ioFail_fs (s : St α) : (ioFail c s).fs = s.fs := (frame_ioFail c s).1.fs
+@[simp] theorem ioFail_k (s : St α) : (ioFail c s).k = s.k := (frame_ioFail c s).1.k
+@[simp] theorem ioFail_destStIno (s : St α) : (ioFail c s).destStIno = s.destStIno := (frame_ioFail c s).1.destStIno
+@[simp] theorem ioFail_srcStIno (s : St α) : (ioFail c s).srcStIno = s.srcStIno := (frame_ioFail c s).1.srcStIno
+@[simp] theorem ioFail_userAbort (s : St α) : (ioFail c s).userAbort = s.userAbort := (frame_ioFail c s).1.userAbort
+@[simp] theorem ioFail_destOpen (s : St α) : (ioFail c s).destOpen = s.destOpen := (frame_ioFail c s).1.destOpen
+@[simp] theorem ioFail_srcOpen (s : St α) : (ioFail c s).srcOpen = s.srcOpen := (frame_ioFail c s).1.srcOpen
+@[simp] theorem ioFail_dirOpen (s : St α) : (ioFail c s).dirOpen = s.dirOpen := (frame_ioFail c s).1.dirOpen
+theorem ioFail_landing (s : St α) : (ioFail c s).pc.landing = true := closing_landing (frame_ioFail c s).2.1
+@[simp] theorem ioFail_ne_unlinkDest (s : St α) : ((ioFail c s).pc = .unlinkDest) = False := by
+  have h := ioFail_landing c s; simp only [eq_iff_iff, iff_false]; intro e; rw [e] at h; simp [Pc.landing] at h
+@[simp] theorem ioFail_ne_statDest (s : St α) : ((ioFail c s).pc = .statDest) = False := by
+  have h := ioFail_landing c s; simp only [eq_iff_iff, iff_false]; intro e; rw [e] at h; simp [Pc.landing] at h
+@[simp] theorem ioFail_ne_statSrc (s : St α) : ((ioFail c s).pc = .statSrc) = False := by
+  have h := ioFail_landing c s; simp only [eq_iff_iff, iff_false]; intro e; rw [e] at h; simp [Pc.landing] at h
+@[simp] theorem ioFail_ne_unlinkSrc (s : St α) : ((ioFail c s).pc = .unlinkSrc) = False := by
+  have h := ioFail_landing c s; simp only [eq_iff_iff, iff_false]; intro e; rw [e] at h; simp [Pc.landing] at h
+@[simp] theorem ioFail_ne_fsyncDir (s : St α) : ((ioFail c s).pc = .fsyncDir) = False := by
+  have h := ioFail_landing c s; simp only [eq_iff_iff, iff_false]; intro e; rw [e] at h; simp [Pc.landing] at h
+@[simp] theorem ioFail_ne_closeSrcErr (s : St α) : ((ioFail c s).pc = .closeSrcErr) = False := by
+  have h := ioFail_landing c s; simp only [eq_iff_iff, iff_false]; intro e; rw [e] at h; simp [Pc.landing] at h
+@[simp] theorem openDestErr_trace (s : St α) : (openDestErr c s).trace = s.trace := (frame_openDestErr c s).1.trace
+@[simp] theorem openDestErr_fs (s : St α) : (openDestErr c s).fs = s.fs := (frame_openDestErr c s).1.fs
+@[simp] theorem openDestErr_k (s : St α) : (openDestErr c s).k = s.k := (frame_openDestErr c s).1.k
+@[simp] theorem openDestErr_destStIno (s : St α) : (openDestErr c s).destStIno = s.destStIno := (frame_openDestErr c s).1.destStIno
+@[simp] theorem openDestErr_srcStIno (s : St α) : (openDestErr c s).srcStIno = s.srcStIno := (frame_openDestErr c s).1.srcStIno
+@[simp] theorem openDestErr_userAbort (s : St α) : (openDestErr c s).userAbort = s.userAbort := (frame_openDestErr c s).1.userAbort
+@[simp] theorem openDestErr_destOpen (s : St α) : (openDestErr c s).destOpen = s.destOpen := (frame_openDestErr c s).1.destOpen
+@[simp] theorem openDestErr_srcOpen (s : St α) : (openDestErr c s).srcOpen = s.srcOpen := (frame_openDestErr c s).1.srcOpen
+@[simp] theorem openDestErr_dirOpen (s : St α) : (openDestErr c s).dirOpen = s.dirOpen := (frame_openDestErr c s).1.dirOpen
+theorem openDestErr_landing (s : St α) : (openDestErr c s).pc.landing = true := (frame_openDestErr c s).2
+@[simp] theorem openDestErr_ne_unlinkDest (s : St α) : ((openDestErr c s).pc = .unlinkDest) = False := by
+  have h := openDestErr_landing c s; simp only [eq_iff_iff, iff_false]; intro e; rw [e] at h; simp [Pc.landing] at h
+@[simp] theorem openDestErr_ne_statDest (s : St α) : ((openDestErr c s).pc = .statDest) = False := by
+  have h := openDestErr_landing c s; simp only [eq_iff_iff, iff_false]; intro e; rw [e] at h; simp [Pc.landing] at h
+@[simp] theorem openDestErr_ne_statSrc (s : St α) : ((openDestErr c s).pc = .statSrc) = False := by
+  have h := openDestErr_landing c s; simp only [eq_iff_iff, iff_false]; intro e; rw [e] at h; simp [Pc.landing] at h
+@[simp] theorem openDestErr_ne_unlinkSrc (s : St α) : ((openDestErr c s).pc = .unlinkSrc) = False := by
+  have h := openDestErr_landing c s; simp only [eq_iff_iff, iff_false]; intro e; rw [e] at h; simp [Pc.landing] at h
+@[simp] theorem openDestErr_ne_fsyncDir (s : St α) : ((openDestErr c s).pc = .fsyncDir) = False := by
+  have h := openDestErr_landing c s; simp only [eq_iff_iff, iff_false]; intro e; rw [e] at h; simp [Pc.landing] at h
+@[simp] theorem openDestErr_ne_closeSrcErr (s : St α) : ((openDestErr c s).pc = .closeSrcErr) = False := by
+  have h := openDestErr_landing c s; simp only [eq_iff_iff, iff_false]; intro e; rw [e] at h; simp [Pc.landing] at h
+@[simp] theorem finish_trace (s : St α) : (finish c s).trace = s.trace := (frame_finish c s).1.trace
+@[simp] theorem finish_fs (s : St α) : (finish c s).fs = s.fs := (frame_finish c s).1.fs
+@[simp] theorem finish_k (s : St α) : (finish c s).k = s.k := (frame_finish c s).1.k
+@[simp] theorem finish_destStIno (s : St α) : (finish c s).destStIno = s.destStIno := (frame_finish c s).1.destStIno
+@[simp] theorem finish_srcStIno (s : St α) : (finish c s).srcStIno = s.srcStIno := (frame_finish c s).1.srcStIno
+@[simp] theorem finish_userAbort (s : St α) : (finish c s).userAbort = s.userAbort := (frame_finish c s).1.userAbort
+@[simp] theorem finish_destOpen (s : St α) : (finish c s).destOpen = s.destOpen := (frame_finish c s).1.destOpen
+@[simp] theorem finish_srcOpen (s : St α) : (finish c s).srcOpen = s.srcOpen := (frame_finish c s).1.srcOpen
+@[simp] theorem finish_dirOpen (s : St α) : (finish c s).dirOpen = s.dirOpen := (frame_finish c s).1.dirOpen
+theorem finish_landing (s : St α) : (finish c s).pc.landing = true := (frame_finish c s).2
+@[simp] theorem finish_ne_unlinkDest (s : St α) : ((finish c s).pc = .unlinkDest) = False := by
+  have h := finish_landing c s; simp only [eq_iff_iff, iff_false]; intro e; rw [e] at h; simp [Pc.landing] at h
+@[simp] theorem finish_ne_statDest (s : St α) : ((finish c s).pc = .statDest) = False := by
+  have h := finish_landing c s; simp only [eq_iff_iff, iff_false]; intro e; rw [e] at h; simp [Pc.landing] at h
+@[simp] theorem finish_ne_statSrc (s : St α) : ((finish c s).pc = .statSrc) = False := by
+  have h := finish_landing c s; simp only [eq_iff_iff, iff_false]; intro e; rw [e] at h; simp [Pc.landing] at h
+@[simp] theorem finish_ne_unlinkSrc (s : St α) : ((finish c s).pc = .unlinkSrc) = False := by
+  have h := finish_landing c s; simp only [eq_iff_iff, iff_false]; intro e; rw [e] at h; simp [Pc.landing] at h
+@[simp] theorem finish_ne_fsyncDir (s : St α) : ((finish c s).pc = .fsyncDir) = False := by
+  have h := finish_landing c s; simp only [eq_iff_iff, iff_false]; intro e; rw [e] at h; simp [Pc.landing] at h
+@[simp] theorem finish_ne_closeSrcErr (s : St α) : ((finish c s).pc = .closeSrcErr) = False := by
+  have h := finish_landing c s; simp only [eq_iff_iff, iff_false]; intro e; rw [e] at h; simp [Pc.landing] at h
+@[simp] theorem doInit_trace (s : St α) : (doInit c s).trace = s.trace := (frame_doInit c s).1.trace
+@[simp] theorem doInit_fs (s : St α) : (doInit c s).fs = s.fs := (frame_doInit c s).1.fs
+@[simp] theorem doInit_k (s : St α) : (doInit c s).k = s.k := (frame_doInit c s).1.k
+@[simp] theorem doInit_destStIno (s : St α) : (doInit c s).destStIno = s.destStIno := (frame_doInit c s).1.destStIno
+@[simp] theorem doInit_srcStIno (s : St α) : (doInit c s).srcStIno = s.srcStIno := (frame_doInit c s).1.srcStIno
+@[simp] theorem doInit_userAbort (s : St α) : (doInit c s).userAbort = s.userAbort := (frame_doInit c s).1.userAbort
+@[simp] theorem doInit_destOpen (s : St α) : (doInit c s).destOpen = s.destOpen := (frame_doInit c s).1.destOpen
+@[simp] theorem doInit_srcOpen (s : St α) : (doInit c s).srcOpen = s.srcOpen := (frame_doInit c s).1.srcOpen
+@[simp] theorem doInit_dirOpen (s : St α) : (doInit c s).dirOpen = s.dirOpen := (frame_doInit c s).1.dirOpen
+theorem doInit_landing (s : St α) : (doInit c s).pc.landing = true := (frame_doInit c s).2
+@[simp] theorem doInit_ne_unlinkDest (s : St α) : ((doInit c s).pc = .unlinkDest) = False := by
+  have h := doInit_landing c s; simp only [eq_iff_iff, iff_false]; intro e; rw [e] at h; simp [Pc.landing] at h
+@[simp] theorem doInit_ne_statDest (s : St α) : ((doInit c s).pc = .statDest) = False := by
+  have h := doInit_landing c s; simp only [eq_iff_iff, iff_false]; intro e; rw [e] at h; simp [Pc.landing] at h
+@[simp] theorem doInit_ne_statSrc (s : St α) : ((doInit c s).pc = .statSrc) = False := by
+  have h := doInit_landing c s; simp only [eq_iff_iff, iff_false]; intro e; rw [e] at h; simp [Pc.landing] at h
+@[simp] theorem doInit_ne_unlinkSrc (s : St α) : ((doInit c s).pc = .unlinkSrc) = False := by
+  have h := doInit_landing c s; simp only [eq_iff_iff, iff_false]; intro e; rw [e] at h; simp [Pc.landing] at h
+@[simp] theorem doInit_ne_fsyncDir (s : St α) : ((doInit c s).pc = .fsyncDir) = False := by
+  have h := doInit_landing c s; simp only [eq_iff_iff, iff_false]; intro e; rw [e] at h; simp [Pc.landing] at h
+@[simp] theorem doInit_ne_closeSrcErr (s : St α) : ((doInit c s).pc = .closeSrcErr) = False := by
+  have h := doInit_landing c s; simp only [eq_iff_iff, iff_false]; intro e; rw [e] at h; simp [Pc.landing] at h
+@[simp] theorem continueLoop_trace (s : St α) : (continueLoop c s).trace = s.trace := (frame_continueLoop c s).1.trace
+@[simp] theorem continueLoop_fs (s : St α) : (continueLoop c s).fs = s.fs := (frame_continueLoop c s).1.fs
+@[simp] theorem continueLoop_k (s : St α) : (continueLoop c s).k = s.k := (frame_continueLoop c s).1.k
+@[simp] theorem continueLoop_destStIno (s : St α) : (continueLoop c s).destStIno = s.destStIno := (frame_continueLoop c s).1.destStIno
+@[simp] theorem continueLoop_srcStIno (s : St α) : (continueLoop c s).srcStIno = s.srcStIno := (frame_continueLoop c s).1.srcStIno
+@[simp] theorem continueLoop_userAbort (s : St α) : (continueLoop c s).userAbort = s.userAbort := (frame_continueLoop c s).1.userAbort
+@[simp] theorem continueLoop_destOpen (s : St α) : (continueLoop c s).destOpen = s.destOpen := (frame_continueLoop c s).1.destOpen
+@[simp] theorem continueLoop_srcOpen (s : St α) : (continueLoop c s).srcOpen = s.srcOpen := (frame_continueLoop c s).1.srcOpen
+@[simp] theorem continueLoop_dirOpen (s : St α) : (continueLoop c s).dirOpen = s.dirOpen := (frame_continueLoop c s).1.dirOpen
+theorem continueLoop_landing (s : St α) : (continueLoop c s).pc.landing = true := (frame_continueLoop c s).2
+@[simp] theorem continueLoop_ne_unlinkDest (s : St α) : ((continueLoop c s).pc = .unlinkDest) = False := by
+  have h := continueLoop_landing c s; simp only [eq_iff_iff, iff_false]; intro e; rw [e] at h; simp [Pc.landing] at h
+@[simp] theorem continueLoop_ne_statDest (s : St α) : ((continueLoop c s).pc = .statDest) = False := by
+  have h := continueLoop_landing c s; simp only [eq_iff_iff, iff_false]; intro e; rw [e] at h; simp [Pc.landing] at h
+@[simp] theorem continueLoop_ne_statSrc (s : St α) : ((continueLoop c s).pc = .statSrc) = False := by
+  have h := continueLoop_landing c s; simp only [eq_iff_iff, iff_false]; intro e; rw [e] at h; simp [Pc.landing] at h
+@[simp] theorem continueLoop_ne_unlinkSrc (s : St α) : ((continueLoop c s).pc = .unlinkSrc) = False := by
+  have h := continueLoop_landing c s; simp only [eq_iff_iff, iff_false]; intro e; rw [e] at h; simp [Pc.landing] at h
+@[simp] theorem continueLoop_ne_fsyncDir (s : St α) : ((continueLoop c s).pc = .fsyncDir) = False := by
+  have h := continueLoop_landing c s; simp only [eq_iff_iff, iff_false]; intro e; rw [e] at h; simp [Pc.landing] at h
+@[simp] theorem continueLoop_ne_closeSrcErr (s : St α) : ((continueLoop c s).pc = .closeSrcErr) = False := by
+  have h := continueLoop_landing c s; simp only [eq_iff_iff, iff_false]; intro e; rw [e] at h; simp [Pc.landing] at h
+@[simp] theorem afterWrite_trace (s : St α) : (afterWrite c s).trace = s.trace := (frame_afterWrite c s).1.trace
+@[simp] theorem afterWrite_fs (s : St α) : (afterWrite c s).fs = s.fs := (frame_afterWrite c s).1.fs
+@[simp] theorem afterWrite_k (s : St α) : (afterWrite c s).k = s.k := (frame_afterWrite c s).1.k
+@[simp] theorem afterWrite_destStIno (s : St α) : (afterWrite c s).destStIno = s.destStIno := (frame_afterWrite c s).1.destStIno
+@[simp] theorem afterWrite_srcStIno (s : St α) : (afterWrite c s).srcStIno = s.srcStIno := (frame_afterWrite c s).1.srcStIno
+@[simp] theorem afterWrite_userAbort (s : St α) : (afterWrite c s).userAbort = s.userAbort := (frame_afterWrite c s).1.userAbort
+@[simp] theorem afterWrite_destOpen (s : St α) : (afterWrite c s).destOpen = s.destOpen := (frame_afterWrite c s).1.destOpen
+@[simp] theorem afterWrite_srcOpen (s : St α) : (afterWrite c s).srcOpen = s.srcOpen := (frame_afterWrite c s).1.srcOpen
+@[simp] theorem afterWrite_dirOpen (s : St α) : (afterWrite c s).dirOpen = s.dirOpen := (frame_afterWrite c s).1.dirOpen
+theorem afterWrite_landing (s : St α) : (afterWrite c s).pc.landing = true := (frame_afterWrite c s).2
+@[simp] theorem afterWrite_ne_unlinkDest (s : St α) : ((afterWrite c s).pc = .unlinkDest) = False := by
+  have h := afterWrite_landing c s; simp only [eq_iff_iff, iff_false]; intro e; rw [e] at h; simp [Pc.landing] at h
+@[simp] theorem afterWrite_ne_statDest (s : St α) : ((afterWrite c s).pc = .statDest) = False := by
+  have h := afterWrite_landing c s; simp only [eq_iff_iff, iff_false]; intro e; rw [e] at h; simp [Pc.landing] at h
+@[simp] theorem afterWrite_ne_statSrc (s : St α) : ((afterWrite c s).pc = .statSrc) = False := by
+  have h := afterWrite_landing c s; simp only [eq_iff_iff, iff_false]; intro e; rw [e] at h; simp [Pc.landing] at h
+@[simp] theorem afterWrite_ne_unlinkSrc (s : St α) : ((afterWrite c s).pc = .unlinkSrc) = False := by
+  have h := afterWrite_landing c s; simp only [eq_iff_iff, iff_false]; intro e; rw [e] at h; simp [Pc.landing] at h
+@[simp] theorem afterWrite_ne_fsyncDir (s : St α) : ((afterWrite c s).pc = .fsyncDir) = False := by
+  have h := afterWrite_landing c s; simp only [eq_iff_iff, iff_false]; intro e; rw [e] at h; simp [Pc.landing] at h
+@[simp] theorem afterWrite_ne_closeSrcErr (s : St α) : ((afterWrite c s).pc = .closeSrcErr) = False := by
+  have h := afterWrite_landing c s; simp only [eq_iff_iff, iff_false]; intro e; rw [e] at h; simp [Pc.landing] at h
+
+@[simp] theorem appendData_trace (s : St α) (d : List α) : (appendData c s d).trace = s.trace := by
+  unfold appendData; split <;> rfl
+@[simp] theorem appendData_pc (s : St α) (d : List α) : (appendData c s d).pc = s.pc := by
+  unfold appendData; split <;> rfl
+@[simp] theorem appendData_k (s : St α) (d : List α) : (appendData c s d).k = s.k := by
+  unfold appendData; split <;> rfl
+@[simp] theorem appendData_destStIno (s : St α) (d : List α) : (appendData c s d).destStIno = s.destStIno := by
+  unfold appendData; split <;> rfl
+@[simp] theorem appendData_srcStIno (s : St α) (d : List α) : (appendData c s d).srcStIno = s.srcStIno := by
+  unfold appendData; split <;> rfl
+@[simp] theorem appendData_userAbort (s : St α) (d : List α) : (appendData c s d).userAbort = s.userAbort := by
+  unfold appendData; split <;> rfl
+@[simp] theorem appendData_destOpen (s : St α) (d : List α) : (appendData c s d).destOpen = s.destOpen := by
+  unfold appendData; split <;> rfl
+@[simp] theorem appendData_srcOpen (s : St α) (d : List α) : (appendData c s d).srcOpen = s.srcOpen := by
+  unfold appendData; split <;> rfl
+@[simp] theorem appendData_dirOpen (s : St α) (d : List α) : (appendData c s d).dirOpen = s.dirOpen := by
+  unfold appendData; split <;> rfl
+@[simp] theorem appendData_ops (s : St α) (d : List α) : (appendData c s d).ops = s.ops := by
+  unfold appendData; split <;> rfl
+@[simp] theorem appendData_main (s : St α) (d : List α) : (appendData c s d).main = s.main := by
+  unfold appendData; split <;> rfl
+@[simp] theorem appendData_success (s : St α) (d : List α) : (appendData c s d).success = s.success := by
+  unfold appendData; split <;> rfl
+@[simp] theorem appendData_exitSt (s : St α) (d : List α) : (appendData c s d).exitSt = s.exitSt := by
+  unfold appendData; split <;> rfl
+@[simp] theorem appendData_wr (s : St α) (d : List α) : (appendData c s d).wr = s.wr := by
+  unfold appendData; split <;> rfl
+@[simp] theorem appendData_pending (s : St α) (d : List α) : (appendData c s d).pending = s.pending := by
+  unfold appendData; split <;> rfl
+@[simp] theorem appendData_trySparse (s : St α) (d : List α) : (appendData c s d).trySparse = s.trySparse := by
+  unfold appendData; split <;> rfl
+@[simp] theorem appendData_rdRem (s : St α) (d : List α) : (appendData c s d).rdRem = s.rdRem := by
+  unfold appendData; split <;> rfl
+@[simp] theorem appendData_srcPos (s : St α) (d : List α) : (appendData c s d).srcPos = s.srcPos := by
+  unfold appendData; split <;> rfl
+@[simp] theorem appendData_fs_srcName (s : St α) (d : List α) : (appendData c s d).fs.srcName = s.fs.srcName := by
+  unfold appendData; split <;> rfl
+@[simp] theorem appendData_fs_dstName (s : St α) (d : List α) : (appendData c s d).fs.dstName = s.fs.dstName := by
+  unfold appendData; split <;> rfl
+@[simp] theorem appendData_fs_srcLinked (s : St α) (d : List α) : (appendData c s d).fs.srcLinked = s.fs.srcLinked := by
+  unfold appendData; split <;> rfl
+@[simp] theorem appendData_fs_preLinked (s : St α) (d : List α) : (appendData c s d).fs.preLinked = s.fs.preLinked := by
+  unfold appendData; split <;> rfl
+@[simp] theorem appendData_fs_ownLinked (s : St α) (d : List α) : (appendData c s d).fs.ownLinked = s.fs.ownLinked := by
+  unfold appendData; split <;> rfl
+@[simp] theorem appendData_fs_foreignLinked (s : St α) (d : List α) : (appendData c s d).fs.foreignLinked = s.fs.foreignLinked := by
+  unfold appendData; split <;> rfl
+@[simp] theorem appendData_fs_dirSynced (s : St α) (d : List α) : (appendData c s d).fs.dirSynced = s.fs.dirSynced := by
+  unfold appendData; split <;> rfl
+
+omit c in
+@[simp] theorem unlinkIno_dstName (fs : FS α) (i : Nat) : (fs.unlinkIno i).dstName = fs.dstName := by
+  unfold FS.unlinkIno; split <;> (try split) <;> (try split) <;> rfl
+omit c in
+@[simp] theorem unlinkIno_srcName (fs : FS α) (i : Nat) : (fs.unlinkIno i).srcName = fs.srcName := by
+  unfold FS.unlinkIno; split <;> (try split) <;> (try split) <;> rfl
+omit c in
+@[simp] theorem unlinkSrcName_dstName (fs : FS α) : fs.unlinkSrcName.dstName = fs.dstName := by
+  unfold FS.unlinkSrcName; split <;> simp
+omit c in
+@[simp] theorem unlinkDstName_dstName (fs : FS α) : fs.unlinkDstName.dstName = none := by
+  unfold FS.unlinkDstName; split <;> simp [*]
+
+theorem closeSrcPhase_closing (s : St α) : (closeSrcPhase c s).pc.closing = true := (frame_closeSrcPhase c s).2.1
+@[simp] theorem closeSrcPhase_ne_unlinkForce (s : St α) : ((closeSrcPhase c s).pc = .unlinkForce) = False := by
+  have h := closeSrcPhase_closing c s; simp only [eq_iff_iff, iff_false]; intro e; rw [e] at h; simp [Pc.closing] at h
+@[simp] theorem closeSrcPhase_ne_openDest (s : St α) : ((closeSrcPhase c s).pc = .openDest) = False := by
+  have h := closeSrcPhase_closing c s; simp only [eq_iff_iff, iff_false]; intro e; rw [e] at h; simp [Pc.closing] at h
+@[simp] theorem closeSrcPhase_ne_openDir (s : St α) : ((closeSrcPhase c s).pc = .openDir) = False := by
+  have h := closeSrcPhase_closing c s; simp only [eq_iff_iff, iff_false]; intro e; rw [e] at h; simp [Pc.closing] at h
+@[simp] theorem closeSrcPhase_ne_fstatDest (s : St α) : ((closeSrcPhase c s).pc = .fstatDest) = False := by
+  have h := closeSrcPhase_closing c s; simp only [eq_iff_iff, iff_false]; intro e; rw [e] at h; simp [Pc.closing] at h
+theorem closeDestPhase_closing (s : St α) : (closeDestPhase c s).pc.closing = true := (frame_closeDestPhase c s).2.1
+@[simp] theorem closeDestPhase_ne_unlinkForce (s : St α) : ((closeDestPhase c s).pc = .unlinkForce) = False := by
+  have h := closeDestPhase_closing c s; simp only [eq_iff_iff, iff_false]; intro e; rw [e] at h; simp [Pc.closing] at h
+@[simp] theorem closeDestPhase_ne_openDest (s : St α) : ((closeDestPhase c s).pc = .openDest) = False := by
+  have h := closeDestPhase_closing c s; simp only [eq_iff_iff, iff_false]; intro e; rw [e] at h; simp [Pc.closing] at h
+@[simp] theorem closeDestPhase_ne_openDir (s : St α) : ((closeDestPhase c s).pc = .openDir) = False := by
+  have h := closeDestPhase_closing c s; simp only [eq_iff_iff, iff_false]; intro e; rw [e] at h; simp [Pc.closing] at h
+@[simp] theorem closeDestPhase_ne_fstatDest (s : St α) : ((closeDestPhase c s).pc = .fstatDest) = False := by
+  have h := closeDestPhase_closing c s; simp only [eq_iff_iff, iff_false]; intro e; rw [e] at h; simp [Pc.closing] at h
+theorem afterAttrs_closing (s : St α) : (afterAttrs c s).pc.closing = true := (frame_afterAttrs c s).2.1
+@[simp] theorem afterAttrs_ne_unlinkForce (s : St α) : ((afterAttrs c s).pc = .unlinkForce) = False := by
+  have h := afterAttrs_closing c s; simp only [eq_iff_iff, iff_false]; intro e; rw [e] at h; simp [Pc.closing] at h
+@[simp] theorem afterAttrs_ne_openDest (s : St α) : ((afterAttrs c s).pc = .openDest) = False := by
+  have h := afterAttrs_closing c s; simp only [eq_iff_iff, iff_false]; intro e; rw [e] at h; simp [Pc.closing] at h
+@[simp] theorem afterAttrs_ne_openDir (s : St α) : ((afterAttrs c s).pc = .openDir) = False := by
+  have h := afterAttrs_closing c s; simp only [eq_iff_iff, iff_false]; intro e; rw [e] at h; simp [Pc.closing] at h
+@[simp] theorem afterAttrs_ne_fstatDest (s : St α) : ((afterAttrs c s).pc = .fstatDest) = False := by
+  have h := afterAttrs_closing c s; simp only [eq_iff_iff, iff_false]; intro e; rw [e] at h; simp [Pc.closing] at h
+theorem closeBlock_closing (s : St α) : (closeBlock c s).pc.closing = true := (frame_closeBlock c s).2.1
+@[simp] theorem closeBlock_ne_unlinkForce (s : St α) : ((closeBlock c s).pc = .unlinkForce) = False := by
+  have h := closeBlock_closing c s; simp only [eq_iff_iff, iff_false]; intro e; rw [e] at h; simp [Pc.closing] at h
+@[simp] theorem closeBlock_ne_openDest (s : St α) : ((closeBlock c s).pc = .openDest) = False := by
+  have h := closeBlock_closing c s; simp only [eq_iff_iff, iff_false]; intro e; rw [e] at h; simp [Pc.closing] at h
+@[simp] theorem closeBlock_ne_openDir (s : St α) : ((closeBlock c s).pc = .openDir) = False := by
+  have h := closeBlock_closing c s; simp only [eq_iff_iff, iff_false]; intro e; rw [e] at h; simp [Pc.closing] at h
+@[simp] theorem closeBlock_ne_fstatDest (s : St α) : ((closeBlock c s).pc = .fstatDest) = False := by
+  have h := closeBlock_closing c s; simp only [eq_iff_iff, iff_false]; intro e; rw [e] at h; simp [Pc.closing] at h
+theorem ioClose_closing (s : St α) : (ioClose c s).pc.closing = true := (frame_ioClose c s).2.1
+@[simp] theorem ioClose_ne_unlinkForce (s : St α) : ((ioClose c s).pc = .unlinkForce) = False := by
+  have h := ioClose_closing c s; simp only [eq_iff_iff, iff_false]; intro e; rw [e] at h; simp [Pc.closing] at h
+@[simp] theorem ioClose_ne_openDest (s : St α) : ((ioClose c s).pc = .openDest) = False := by
+  have h := ioClose_closing c s; simp only [eq_iff_iff, iff_false]; intro e; rw [e] at h; simp [Pc.closing] at h
+@[simp] theorem ioClose_ne_openDir (s : St α) : ((ioClose c s).pc = .openDir) = False := by
+  have h := ioClose_closing c s; simp only [eq_iff_iff, iff_false]; intro e; rw [e] at h; simp [Pc.closing] at h
+@[simp] theorem ioClose_ne_fstatDest (s : St α) : ((ioClose c s).pc = .fstatDest) = False := by
+  have h := ioClose_closing c s; simp only [eq_iff_iff, iff_false]; intro e; rw [e] at h; simp [Pc.closing] at h
+theorem ioFail_closing (s : St α) : (ioFail c s).pc.closing = true := (frame_ioFail c s).2.1
+@[simp] theorem ioFail_ne_unlinkForce (s : St α) : ((ioFail c s).pc = .unlinkForce) = False := by
+  have h := ioFail_closing c s; simp only [eq_iff_iff, iff_false]; intro e; rw [e] at h; simp [Pc.closing] at h
+@[simp] theorem ioFail_ne_openDest (s : St α) : ((ioFail c s).pc = .openDest) = False := by
+  have h := ioFail_closing c s; simp only [eq_iff_iff, iff_false]; intro e; rw [e] at h; simp [Pc.closing] at h
+@[simp] theorem ioFail_ne_openDir (s : St α) : ((ioFail c s).pc = .openDir) = False := by
+  have h := ioFail_closing c s; simp only [eq_iff_iff, iff_false]; intro e; rw [e] at h; simp [Pc.closing] at h
+@[simp] theorem ioFail_ne_fstatDest (s : St α) : ((ioFail c s).pc = .fstatDest) = False := by
+  have h := ioFail_closing c s; simp only [eq_iff_iff, iff_false]; intro e; rw [e] at h; simp [Pc.closing] at h
+
+theorem finish_closing (s : St α) : (finish c s).pc.closing = true := by
+  unfold finish; split
+  · exact ioClose_closing c _
+  · exact ioFail_closing c _
+
+theorem nextMain_unlinkForce (ops : List (Op α)) (s : St α) : (nextMain c ops s).pc ≠ .unlinkForce := by
+  induction ops generalizing s with
+  | nil => unfold nextMain; intro e; have := finish_closing c { s with ops := [] }; rw [e] at this; simp [Pc.closing] at this
+  | cons op r ih =>
+    cases op <;> unfold nextMain
+    · split
+      · simp
+      · exact ih s
+    · split
+      · exact ih s
+      · simp
+    · split
+      · exact ih s
+      · split
+        · exact ih _
+        · split
+          · exact ih s
+          · split <;> simp
+    · split
+      · exact ih s
+      · simp
+
+theorem doInit_unlinkForce (s : St α) : (doInit c s).pc = .unlinkForce → c.o.force = true := by
+  unfold doInit; simp only
+  split
+  · simp
+  · split
+    · simp
+    · split
+      · intro e; exact absurd e (nextMain_unlinkForce c _ _)
+      · split
+        · simp
+        · split
+          · simp
+          · split
+            · intro _; assumption
+            · simp
+
+theorem nextPre_unlinkForce (ops : List (Op α)) (s : St α) : (nextPre c ops s).pc = .unlinkForce → c.o.force = true := by
+  induction ops generalizing s with
+  | nil => unfold nextPre; exact doInit_unlinkForce c s
+  | cons op r ih =>
+    cases op <;> unfold nextPre
+    · exact ih s
+    · split
+      · exact ih s
+      · simp
+    · exact ih s
+    · exact ih s
+
+theorem continueLoop_unlinkForce (s : St α) : (continueLoop c s).pc = .unlinkForce → c.o.force = true := by
+  unfold continueLoop; split
+  · intro e; exact absurd e (nextMain_unlinkForce c _ _)
+  · exact nextPre_unlinkForce c _ s
+
+theorem afterWrite_unlinkForce (s : St α) : (afterWrite c s).pc = .unlinkForce → c.o.force = true := by
+  unfold afterWrite; split
+  · simp
+  · exact continueLoop_unlinkForce c s
+
+theorem openDestErr_unlinkForce (s : St α) : (openDestErr c s).pc ≠ .unlinkForce := by
+  unfold openDestErr; split <;> simp
+
+omit c in
+theorem unlinkIno_preLinked (fs : FS α) {i : Nat} (h : i ≠ inoPre) : (fs.unlinkIno i).preLinked = fs.preLinked := by
+  unfold FS.unlinkIno; split <;> (try split) <;> (try split) <;> first | rfl | contradiction
+omit c in
+theorem unlinkIno_ownLinked_false (fs : FS α) (i : Nat) (h : fs.ownLinked = false) : (fs.unlinkIno i).ownLinked = false := by
+  unfold FS.unlinkIno; split <;> (try split) <;> (try split) <;> first | exact h | rfl
+omit c in
+theorem unlinkIno_srcLinked (fs : FS α) {i : Nat} (h : i ≠ inoSrc) : (fs.unlinkIno i).srcLinked = fs.srcLinked := by
+  unfold FS.unlinkIno; split <;> (try split) <;> (try split) <;> first | rfl | contradiction
+omit c in
+theorem unlinkIno_ownLinked (fs : FS α) {i : Nat} (h : i ≠ inoOwn) : (fs.unlinkIno i).ownLinked = fs.ownLinked := by
+  unfold FS.unlinkIno; split <;> (try split) <;> (try split) <;> first | rfl | contradiction
+
+/-! ### where io_close's dispatchers can land, and with which `success` -/
+
+def Pc.isCloseD : Pc → Bool
+  | .closeDir | .closeDest => true
+  | _ => false
+
+theorem closeSrcPhase_notCloseD (s : St α) : (closeSrcPhase c s).pc.isCloseD = false := by
+  unfold closeSrcPhase; split <;> rfl
+
+theorem closeBlock_origin (s : St α) : (closeBlock c s).pc.isCloseD = true → s.success = false := by
+  unfold closeBlock
+  split
+  · intro h; simp [Pc.isCloseD] at h
+  · rename_i hc
+    unfold closeDestPhase
+    split
+    · intro h; rw [closeSrcPhase_notCloseD] at h; simp at h
+    · rename_i hd
+      intro _
+      cases hs : s.success with
+      | false => rfl
+      | true => simp [hs] at hc; simp [hc] at hd
+
+theorem closeBlock_success (s : St α) : (closeBlock c s).success = s.success := (frame_closeBlock c s).2.2
+
+theorem ioClose_origin (s : St α) : (ioClose c s).pc.isCloseD = true → s.success = false := by
+  unfold ioClose
+  split
+  · intro h; simp [Pc.isCloseD] at h
+  · exact closeBlock_origin c s
+
+theorem ioFail_success (s : St α) : (ioFail c s).success = false := (frame_ioFail c s).2.2
+
+theorem finish_origin (s : St α) : (finish c s).pc.isCloseD = true → (finish c s).success = false := by
+  unfold finish
+  split
+  · intro h; have := ioClose_origin c _ h; simp at this
+  · intro _; exact ioFail_success c _
+
+theorem nextMain_origin (ops : List (Op α)) (s : St α) (hs : s.success = false) :
+    (nextMain c ops s).pc.isCloseD = true → (nextMain c ops s).success = false := by
+  induction ops generalizing s with
+  | nil => unfold nextMain; exact finish_origin c _
+  | cons op r ih =>
+    cases op <;> unfold nextMain
+    · split
+      · intro _; exact ioFail_success c _
+      · exact ih s hs
+    · split
+      · exact ih s hs
+      · intro _; exact hs
+    · split
+      · exact ih s hs
+      · split
+        · exact ih _ hs
+        · split
+          · exact ih s hs
+          · split <;> (intro _; exact hs)
+    · split
+      · exact ih s hs
+      · intro _; exact hs
+
+theorem doInit_origin (s : St α) (hs : s.success = false) :
+    (doInit c s).pc.isCloseD = true → (doInit c s).success = false := by
+  unfold doInit; simp only
+  split
+  · intro _; exact ioFail_success c _
+  · split
+    · intro _; exact ioFail_success c _
+    · split
+      · exact nextMain_origin c _ _ hs
+      · split
+        · intro _; exact hs
+        · split
+          · intro _; exact hs
+          · split <;> (intro _; exact hs)
+
+theorem nextPre_origin (ops : List (Op α)) (s : St α) (hs : s.success = false) :
+    (nextPre c ops s).pc.isCloseD = true → (nextPre c ops s).success = false := by
+  induction ops generalizing s with
+  | nil => unfold nextPre; exact doInit_origin c s hs
+  | cons op r ih =>
+    cases op <;> unfold nextPre
+    · exact ih s hs
+    · split
+      · exact ih s hs
+      · intro _; exact hs
+    · exact ih s hs
+    · exact ih s hs
+
+theorem continueLoop_origin (s : St α) (hs : s.success = false) :
+    (continueLoop c s).pc.isCloseD = true → (continueLoop c s).success = false := by
+  unfold continueLoop; split
+  · exact nextMain_origin c _ s hs
+  · exact nextPre_origin c _ s hs
+
+theorem afterWrite_origin (s : St α) : (afterWrite c s).pc.isCloseD = true → (afterWrite c s).success = false := by
+  unfold afterWrite
+  split
+  · rename_i h; intro hp; have := closeBlock_origin c s hp; rw [this] at h; simp at h
+  · rename_i h; exact continueLoop_origin c s (by simpa using h)
+
+theorem openDestErr_success (s : St α) (hs : s.success = false) : (openDestErr c s).success = false := by
+  unfold openDestErr; split
+  · exact hs
+  · exact ioFail_success c s
+
+/-- only afterAttrs can stop at fsyncFile -/
+theorem closeDestPhase_ne_fsyncFile (s : St α) : (closeDestPhase c s).pc ≠ .fsyncFile := by
+  unfold closeDestPhase closeSrcPhase; repeat' split
+  all_goals simp
+theorem closeBlock_ne_fsyncFile (s : St α) : (closeBlock c s).pc ≠ .fsyncFile := by
+  unfold closeBlock; split
+  · simp
+  · exact closeDestPhase_ne_fsyncFile c s
+theorem ioClose_ne_fsyncFile (s : St α) : (ioClose c s).pc ≠ .fsyncFile := by
+  unfold ioClose; split
+  · simp
+  · exact closeBlock_ne_fsyncFile c s
+theorem ioFail_ne_fsyncFile (s : St α) : (ioFail c s).pc ≠ .fsyncFile := closeBlock_ne_fsyncFile c _
+theorem closeSrcPhase_ne_fsyncFile (s : St α) : (closeSrcPhase c s).pc ≠ .fsyncFile := by
+  unfold closeSrcPhase; split <;> simp
+theorem finish_ne_fsyncFile (s : St α) : (finish c s).pc ≠ .fsyncFile := by
+  unfold finish; split
+  · exact ioClose_ne_fsyncFile c _
+  · exact ioFail_ne_fsyncFile c _
+theorem nextMain_ne_fsyncFile (ops : List (Op α)) (s : St α) : (nextMain c ops s).pc ≠ .fsyncFile := by
+  induction ops generalizing s with
+  | nil => unfold nextMain; exact finish_ne_fsyncFile c _
+  | cons op r ih =>
+    cases op <;> unfold nextMain
+    · split
+      · exact ioFail_ne_fsyncFile c _
+      · exact ih s
+    · split
+      · exact ih s
+      · simp
+    · split
+      · exact ih s
+      · split
+        · exact ih _
+        · split
+          · exact ih s
+          · split <;> simp
+    · split
+      · exact ih s
+      · simp
+theorem doInit_ne_fsyncFile (s : St α) : (doInit c s).pc ≠ .fsyncFile := by
+  unfold doInit; simp only
+  split
+  · exact ioFail_ne_fsyncFile c _
+  · split
+    · exact ioFail_ne_fsyncFile c _
+    · split
+      · exact nextMain_ne_fsyncFile c _ _
+      · split
+        · simp
+        · split
+          · simp
+          · split <;> simp
+theorem nextPre_ne_fsyncFile (ops : List (Op α)) (s : St α) : (nextPre c ops s).pc ≠ .fsyncFile := by
+  induction ops generalizing s with
+  | nil => unfold nextPre; exact doInit_ne_fsyncFile c s
+  | cons op r ih =>
+    cases op <;> unfold nextPre
+    · exact ih s
+    · split
+      · exact ih s
+      · simp
+    · exact ih s
+    · exact ih s
+theorem continueLoop_ne_fsyncFile (s : St α) : (continueLoop c s).pc ≠ .fsyncFile := by
+  unfold continueLoop; split
+  · exact nextMain_ne_fsyncFile c _ s
+  · exact nextPre_ne_fsyncFile c _ s
+theorem afterWrite_ne_fsyncFile (s : St α) : (afterWrite c s).pc ≠ .fsyncFile := by
+  unfold afterWrite; split
+  · exact closeBlock_ne_fsyncFile c s
+  · exact continueLoop_ne_fsyncFile c s
+theorem openDestErr_ne_fsyncFile (s : St α) : (openDestErr c s).pc ≠ .fsyncFile := by
+  unfold openDestErr; split
+  · simp
+  · exact ioFail_ne_fsyncFile c s
 
 end XzVerif.XzIo
